@@ -29,7 +29,7 @@ class Contract:
                  trusted=False, pure=False, stable=(), ghost=None, prop=(), note='',
                  body_types=None, allow_exc=(), allocates=(), is_property=False,
                  is_static=False, is_classmethod=False, repeatable=False, assume_callee_pre=False,
-                 ghost_init=None, ghost_after=None, call_asserts=None, yield_asserts=None, yield_type=None, options=None):
+                 ghost_init=None, ghost_after=None, call_asserts=None, yield_asserts=None, yield_type=None, options=None, ghost_before=None):
         self.key = key
         self.params = list(params)              # [(name, type, default-or-None)]
         self.returns = returns
@@ -55,6 +55,7 @@ class Contract:
         self.is_classmethod = is_classmethod
         self.ghost_init = ghost_init or {}        # ghost name -> (type, init expression)
         self.ghost_after = ghost_after or {}      # unparsed statement text -> [(ghost name, expression)]
+        self.ghost_before = ghost_before or {}    # unparsed statement text -> [('__assert__', clause)] proved BEFORE it runs
         self.options = options or {}
         self.yield_type = yield_type
         self.yield_asserts = list(yield_asserts or [])   # clauses over `yielded`, checked at every yield
